@@ -30,9 +30,6 @@ Fixpoint lvals (l : nat -> R) (j : nat) : list val := match j with O => [] | S k
 Fixpoint acc (l : nat -> R) (k : nat) : R := match k with O => 0 | S j => acc l j + exp (l j) end.
 Ltac RUNF t := let r := eval lazy -[Rplus Rmult Rminus Rdiv Rinv Ropp Rmax Rmin Rlt Rle Rgt Rge ln exp sqrt log10 IZR dec Rpower pow PI DBL_MAX not Z.of_nat repeat acc lvals sumexp_v length] in t in change t with r.
 Ltac RUNR t := let r := eval lazy -[Rplus Rmult Rminus Rdiv Rinv Ropp Rmax Rmin Rlt Rle Rgt Rge ln exp sqrt log10 IZR dec Rpower pow PI DBL_MAX not Z.of_nat repeat zrange Z.to_nat acc lvals sumexp_v length] in t in change t with r.
-Lemma run_stmts_cons step s rest ρ w :
-  run_stmts step (s :: rest) ρ w = seq_out (step s ρ w) (fun ρ' w' => run_stmts step rest ρ' w').
-Proof. reflexivity. Qed.
 Ltac STEP :=
   rewrite run_stmts_cons;
   match goal with |- context [seq_out (exec_stmt ?t ?a ?es ?b ?c ?d ?e ?f) _] => RUNF (exec_stmt t a es b c d e f) end;
